@@ -147,7 +147,7 @@ uint8  g_ov;
     int r = FN(src, d, num_elm, source_stride, dest_stride);                                         \
     COVER_OUT(r == SUCCEED && !in_place, #FN " out-of-place path");                                  \
     COVER_IN(r == SUCCEED && in_place, #FN " in-place path");                                        \
-    H4V_COVER(r == SUCCEED && num_elm > 2 && g_k == num_elm - 1, #FN " last element");               \
+    H4V_COVER(r == SUCCEED && num_elm >= 2 && g_k == num_elm - 1, #FN " last element");              \
     H4V_COVER(r == FAIL, #FN " no elements");                                                        \
     H4V_CANARY(#FN " end")
 
